@@ -56,18 +56,18 @@ type Config struct {
 
 // Analyzer runs the abstract interpretation.
 type Analyzer struct {
-	cfg      Config
-	tt       *termTable
-	verdicts map[string]*verdict
-	failAll  bool
-	frames   map[string]*Frame
-	stack    []*ssa.Function
-	Externs  map[string]int // external callees seen (name -> count)
-	Unknown  map[string]int // external callees outside the reviewed effect table
-	Reached  map[*ssa.Function]int
-	steps    int
-	Warnings []string
-	tables   map[*Frame]*tableSummary
+	cfg         Config
+	tt          *termTable
+	verdicts    map[string]*verdict
+	failAll     bool
+	frames      map[string]*Frame
+	stack       []*ssa.Function
+	Externs     map[string]int // external callees seen (name -> count)
+	Unknown     map[string]int // external callees outside the reviewed effect table
+	Reached     map[*ssa.Function]int
+	steps       int
+	Warnings    []string
+	tables      map[*Frame]*tableSummary
 	memo        map[*Frame]*memoEntry
 	memoHits    int
 	callerRoots []*State
